@@ -268,6 +268,7 @@ def spec_pool() -> list:
   return out
 
 
+IDENTITY_EQ = set()     # pool members that Python itself compares / hashes by identity (functools.partial): eq, hash don't-care
 UNPICKLABLE = set()     # ids of pool members that Python cannot pickle by reference (lambdas, nested functions)
 
 
@@ -291,6 +292,8 @@ def _opaque_pool() -> list:
     pool.append((f, _callable_eq(bind_self)))
     if not picklable:
       UNPICKLABLE.add(id(f))
+    if isinstance(f, functools.partial):
+      IDENTITY_EQ.add(id(f))
   lam = None
   for name, v, eqf in spec_pool():
     pool.append((v, eqf))
@@ -412,6 +415,8 @@ def holds_identity_hashed_in_tuple(x, in_tuple=False) -> bool:
   """A tuple (hashed by Python's hash) that contains a symbolic object whose __hash__ is identity based."""
   if isinstance(x, tuple):
     return any(holds_identity_hashed_in_tuple(y, True) for y in x)
+  if in_tuple and inspect.isfunction(x):
+    return True          # a function loaded from its code is a new object; inside a tuple it is hashed by identity
   if isinstance(x, pg.Object):
     if in_tuple and not type(x).use_symbolic_comparison:
       return True
@@ -523,7 +528,7 @@ def observe(v: dict, vi: int, c: int, way: str) -> Optional[dict]:
     return row
   row['ok'] = True
   row['back'] = conc.abstract(back)
-  nan = has_nan(orig)
+  nan = has_nan(orig) or (id(conc.opaque) in IDENTITY_EQ and has_atom(v, 20))
   # pg.eq(nan, nan) is False: values with NaN leaves are judged by the structural projection only (don't-care)
   row['eq'] = True if nan else bool(_safe(lambda: pg.eq(orig, back) and pg.eq(back, orig) and not pg.ne(orig, back)))
   row['type'] = type(back) is type(orig) and same_behaviour(orig, back)
